@@ -6,6 +6,8 @@ import (
 	"reflect"
 	"regexp"
 	"strings"
+	"sync"
+	"sync/atomic"
 
 	"go.flow.arcalot.io/pluginsdk/schema"
 
@@ -151,7 +153,11 @@ func runC18(c *wk.Ctx) {
 		}
 	}
 	ncases := int64(len(plists)) * int64(len(results))
-	c.Cases(ncases+int64(len(pool)*6), func(idx int64, r *wk.Rand) {
+	c.Cases(ncases+int64(len(pool)*6)+4, func(idx int64, r *wk.Rand) {
+		if idx >= ncases+int64(len(pool)*6) {
+			c18Concurrent(c, int(idx-ncases-int64(len(pool)*6)))
+			return
+		}
 		if idx >= ncases {
 			c18Variadic(c, pool, int(idx-ncases))
 			return
@@ -493,6 +499,74 @@ func c18Variadic(c *wk.Ctx, pool []c18Type, k int) {
 	}
 	if (declOut != nil || dynamic) && res != int64(3) {
 		c.Violation("C18:call:wrong-result:variadic", fmt.Sprintf("accepted variadic handler %s: Call returned %#v, handler saw %d elements", ft, res, seenLen), wit)
+	}
+}
+
+// c18Concurrent: one function object called from several goroutines at once must hand every caller the result
+// of its own arguments (the engine evaluates expressions of parallel steps with the same function objects).
+func c18Concurrent(c *wk.Ctx, k int) {
+	intS, strS := schema.NewIntSchema(nil, nil, nil), schema.NewStringSchema(nil, nil, nil)
+	var fn schema.CallableFunction
+	var err error
+	dynamic := k%2 == 1
+	twoArgs := k/2 == 1
+	switch {
+	case !dynamic && !twoArgs:
+		fn, err = schema.NewCallableFunction("f", []schema.Type{intS}, strS, true, nil, func(a int64) (string, error) { return fmt.Sprint("r", a), nil })
+	case !dynamic && twoArgs:
+		fn, err = schema.NewCallableFunction("f", []schema.Type{intS, strS}, strS, true, nil, func(a int64, b string) (string, error) { return fmt.Sprint("r", a, b), nil })
+	case dynamic && !twoArgs:
+		fn, err = schema.NewDynamicCallableFunction("f", []schema.Type{intS}, nil, func(a int64) (any, error) { return fmt.Sprint("r", a), nil },
+			func([]schema.Type) (schema.Type, error) { return schema.NewAnySchema(), nil })
+	default:
+		fn, err = schema.NewDynamicCallableFunction("f", []schema.Type{intS, strS}, nil, func(a int64, b string) (any, error) { return fmt.Sprint("r", a, b), nil },
+			func([]schema.Type) (schema.Type, error) { return schema.NewAnySchema(), nil })
+	}
+	if err != nil {
+		c.Violation("C18:static:rejected-but-signature-agrees", fmt.Sprintf("constructor rejected a matching handler: %v", err), map[string]any{"dynamic": dynamic})
+		return
+	}
+	const goroutines, calls = 8, 4000
+	var wrong, failed atomic.Int64
+	var first atomic.Value
+	var wg sync.WaitGroup
+	start := make(chan struct{})
+	for g := 0; g < goroutines; g++ {
+		g := g
+		wg.Add(1)
+		go func() {
+			defer wg.Done()
+			defer func() {
+				if p := recover(); p != nil {
+					failed.Add(1)
+					first.CompareAndSwap(nil, fmt.Sprint("panic: ", p))
+				}
+			}()
+			<-start
+			for i := 0; i < calls; i++ {
+				a, b := int64(g*1000000+i), fmt.Sprint("s", g, "-", i)
+				args, want := []any{a}, fmt.Sprint("r", a)
+				if twoArgs {
+					args, want = []any{a, b}, fmt.Sprint("r", a, b)
+				}
+				got, err := fn.Call(args)
+				if err != nil {
+					failed.Add(1)
+					first.CompareAndSwap(nil, "error: "+err.Error())
+				} else if got != want {
+					wrong.Add(1)
+					first.CompareAndSwap(nil, fmt.Sprintf("Call(%v) returned %v", args, got))
+				}
+			}
+		}()
+	}
+	close(start)
+	wg.Wait()
+	c.CountN("concurrent_calls", goroutines*calls)
+	c.Eval(wk.Hash64("concurrent", fmt.Sprint(k)), true)
+	if wrong.Load() > 0 || failed.Load() > 0 {
+		c.Violation("C18:call:concurrent-callers-mixed-up", fmt.Sprintf("%d of %d concurrent calls on one function object returned another caller's result (%d failed); first: %v", wrong.Load(), goroutines*calls, failed.Load(), first.Load()),
+			map[string]any{"dynamic": dynamic, "parameters": map[bool]int{false: 1, true: 2}[twoArgs], "goroutines": goroutines})
 	}
 }
 
